@@ -13,7 +13,7 @@ import re
 
 PROP = 'C01'
 LEVEL = 'exploration'
-RULE = ('(a) every sequence of 1..k lines (k=3 quick, 4 thorough) over 24 line-class representatives x the input '
+RULE = ('(a) every sequence of 1..k lines (k=3 quick, 4 thorough) over 25 line-class representatives x the input '
         'forms {all terminated, last line un-terminated, no line terminated}; (b) random documents of 1..12 lines over '
         'a 22-symbol hostile alphabet (CR, VT, FF, U+0085, NBSP, NUL, DEL, non-ASCII, U+2028), as str and as UTF-8 bytes '
         'lines, from a list and from a one-shot iterator; (c) every deb822-shaped fixture of the repository, whole and '
@@ -43,9 +43,9 @@ LEVEL_NOTE = 'Trusted: CPython, the harness tee of the input. The class-represen
 TECHNIQUE = 'runtime monitoring: boundary oracle (input text tee) on every parse/tokenize execution; bounded-exhaustive line-class adjacency driver + seeded random documents'
 
 BODIES = ['', ' ', '\t', '\x0b', '\xa0', ' \r', '# c', '#', ' cont', '\tcont', ' # not-comment', 'A: b', 'A:', 'A:  ',
-          'A : b', 'a:b:c', '-x: y', 'garbage', ' .', 'A: \xe9 ', '\xe9: x', 'A: b\r', 'A:\x0b', 'B: c ']
+          'A : b', 'a:b:c', '-x: y', 'garbage', ' .', 'A: \xe9 ', '\xe9: x', 'A: b\r', 'A:\x0b', 'B: c ', '\ufeffA: b']
 ALPHA = ['a', 'B', ':', '#', ' ', '\t', '\r', '\x0b', '\x0c', '\x85', ' ', '\xa0', '-', '\xe9', '\u6f22', ',', '\x00',
-         '\x7f', '.', '~', '\u2028', '\x1c']
+         '\x7f', '.', '~', '\u2028', '\x1c', '\ufeff', '\u200b', '\U0001f600']
 _WS = re.compile(r'^\s+$')
 
 
@@ -129,6 +129,9 @@ def cases(ctx):
     for i in range(ctx.size(24000, 2400000)):
         n = r.randint(1, 12)
         bodies = [rand_line(r) for _ in range(n)]
+        if r.random() < .04:
+            # text that starts with a byte-order mark or another invisible character (files written by some editors)
+            bodies[0] = r.choice(['\ufeff', '\ufeff', '\u200b', '\ufffe', '\x00']) + bodies[0]
         form = r.choice(['term', 'term', 'lastno', 'nonl'])
         lines = make_lines(bodies, form)
         if lines is None:
